@@ -89,7 +89,31 @@ Win ==
                        win |-> e.win, seed |-> e.seed, illegal |-> e.illegal])
                : k \in DOMAIN e.runs })
   /\ l' = l + 1
-Next == Tree \/ Win
+\* Design-level binding of PvsTable.tla (InvSound): after searching a position to depth 1..d on one table, every entry
+\* found at an interior node of the tree, of the depth that node has in the tree, must be sound for the exhaustive value
+\* of that node: Exact = it, LowerBound <= it, UpperBound >= it (mate-range scores clamped: they depend on the ply at
+\* which the position was reached).  Soundness of the table is not one of the listed properties - an unsound entry is a
+\* NOTE (pseudo-property DRIFT), the mate searches of C10 and the legality checks of C06 give the verdicts.
+Sound(te, v) == CASE te.flag = "exact" -> Clamp(te.score) = v
+                  [] te.flag = "lower" -> Clamp(te.score) <= v
+                  [] te.flag = "upper" -> Clamp(te.score) >= v
+                  [] OTHER -> TRUE
+TT ==
+  /\ l <= Len(Rec) /\ Rec[l].ev = "tt"
+  /\ LET e == Rec[l] IN
+     IF "skip" \in DOMAIN e THEN PrintT(<<"SKIP", l, e.skip>>)
+     ELSE IF HasMovelessNode(e.nodes) THEN PrintT(<<"SKIP", l, "moveless node">>)
+     ELSE LET t == e.nodes
+              judged == { i \in DOMAIN t : "te" \in DOMAIN t[i] /\ t[i].te.d = t[i].r }
+              bad == { i \in judged : ~Sound(t[i].te, Clamp(V(t, i))) }
+          IN /\ PrintT(<<"TT", l, e.n, Cardinality(judged), Cardinality(bad)>>)
+             /\ Report(IF bad = {} THEN {}
+                       ELSE LET i == CHOOSE i \in bad : TRUE IN
+                            F(FALSE, "DRIFT", "a transposition-table entry is not sound for the exhaustive value of its node (PvsTable!InvSound)",
+                              [fen |-> e.fen, d |-> e.d, node |-> i, remaining |-> t[i].r, ply |-> t[i].p, entry |-> t[i].te,
+                               value |-> Clamp(V(t, i)), unsound_entries |-> Cardinality(bad), judged |-> Cardinality(judged)]))
+  /\ l' = l + 1
+Next == Tree \/ Win \/ TT
 Spec == Init /\ [][Next]_l
 Accepted ==
   IF TLCGet("stats").diameter = Len(Rec) + 1
